@@ -53,7 +53,7 @@ func rulesC11(c *Ctx, r *Report) {
 	r.Extra["decoder_reachable_functions"] = len(funcs)
 	rulesGrdFuncs(c, r, funcs, 120, "bounds goals proven in decoder-reachable functions (hand-confirmed sites: sam.parseLine 11 columns + line[11:] + snm.At{1,3,4,7,8}, parseInts p[i], splitTag, parseTags parts[2][0], fastq name[0]/name[1:], bed 12 padded columns, ItemRGB[i], BlockSizes/Starts[i], smtext row[0]/valStrs[0]/valStrs[1:]/chars[i]/s[0], newick stack tops, quoted/nameFromText)")
 	rulesPanics(c, r, funcs, reach)
-	rulesNoDroppedErrors(c, r, funcs)
+	rulesNoDroppedErrors(c, r, funcs, 40)
 	rulesPassThroughErrors(c, r)
 	rulesNoIntToString(c, r)
 	rulesParseErrorContinues(c, r)
@@ -281,7 +281,7 @@ func lengthPanicDischarged(c *Ctx, f *ssa.Function, pn *ssa.Panic) (ok bool, why
 }
 
 // rulesNoDroppedErrors (B0).
-func rulesNoDroppedErrors(c *Ctx, r *Report, funcs []*ssa.Function) {
+func rulesNoDroppedErrors(c *Ctx, r *Report, funcs []*ssa.Function, floor int) {
 	e := &fdEngine{c: c, mode: fdAll, derived: map[*ssa.Function]bool{}}
 	e.computeDerived(funcs)
 	e.mode = fdAll
@@ -308,7 +308,7 @@ func rulesNoDroppedErrors(c *Ctx, r *Report, funcs []*ssa.Function) {
 			}
 		}
 	}
-	r.floor("B0", n, 40, "error-returning calls in decoder-reachable functions")
+	r.floor("B0", n, floor, "error-returning calls in the analysed functions")
 	withControl(r, "B0 dropped error", func(cc *Ctx, fs []*ssa.Function) int {
 		e2 := &fdEngine{c: cc, mode: fdAll, noEOF: true, derived: map[*ssa.Function]bool{}}
 		hits := 0
